@@ -498,6 +498,18 @@ def mk_bin(op, a, b):
         # keep it an atom otherwise.
         if d > 0 and a.c % d == 0 and all(k % d == 0 for _, k in a.t) and a.t:
             return Lin(a.c // d, [(t, k // d) for t, k in a.t])
+    if op in ("or", "xor") and (a.is_const() or b.is_const()):
+        # x | c == x + c when the low bits of x covered by c are structurally zero
+        x, c = (b, a) if a.is_const() else (a, b)
+        cv = c.c
+        if cv > 0:
+            z = 1 << 62
+            for _, k in x.t:
+                z = min(z, k & (-k)) if k else z
+            if x.c:
+                z = min(z, x.c & (-x.c))
+            if cv < z:
+                return x + cv
     if op in ("or", "xor", "umax", "umin", "smax", "smin"):
         a, b = sorted([a, b], key=repr)
     if op == "xor" and b.is_const() and b.c == -1:
